@@ -166,7 +166,7 @@ def build_torch():
         _quadruple=lambda x: (x, x, x, x) if not isinstance(x, tuple) else x,
         _ntuple=lambda n, name=None: (lambda x: tuple([x] * n) if not isinstance(x, tuple) else x)))
     nn_modules = mm('torch.nn.modules', dict(utils=nn_utils, Module=st.Module))
-    functional = mm('torch.nn.functional', dict(normalize=st._normalize, pad=st.pad))
+    functional = mm('torch.nn.functional', dict(normalize=st._normalize, pad=st.pad, softplus=st.softplus))
     nn = mm('torch.nn', dict(Module=st.Module, Parameter=st.Parameter, modules=nn_modules, functional=functional))
     t.nn = nn
 
